@@ -111,8 +111,9 @@ func MetaSection(t *rapid.T) ([]byte, MetaExpect) {
 				vb = [4]float32{-1, -1, 1, 1}
 				k := rapid.IntRange(0, 3).Draw(t, "vb.which")
 				nf := rapid.SampledFrom(NonFinite).Draw(t, "vb.nf")
+				both := rapid.IntRange(0, 2).Draw(t, "vb.bothends") == 0 // both ends of the axis the same non-finite value
 				for i, v := range vb {
-					if i == k {
+					if i == k || both && i == (k+2)%4 {
 						body = append(body, spec.EncodeNaturalW(math.Float32bits(nf)>>2, 4)...)
 					} else {
 						body = append(body, gridCoord(t, v, "vb.c")...)
